@@ -49,6 +49,7 @@ ANCHORS = [
     "biotite.structure.io.pdbx.convert:_parse_inter_residue_bonds",
     "biotite.structure.io.pdbx.convert:_filter_canonical_links",
     "biotite.structure.io.pdbx.convert:_find_matches_by_dense_array",
+    "biotite.structure.io.pdbx.convert:_find_matches_by_dict",
     "biotite.structure.filter:filter_first_altloc",
     "biotite.structure.filter:filter_highest_occupancy_altloc",
 ]
@@ -201,6 +202,11 @@ def gen_structure(rng, ctx, want_bonds, max_models=4):
     coords = np.float32(rng.normal(size=(m, n, 3)) * scale)
     if rng.random() < 0.2:
         coords = np.round(coords, 3)
+    elif rng.random() < 0.15 and n > 1:
+        # repeated values (run-length friendly), one negative value of large magnitude, one value with many decimals
+        coords = np.float32(np.round(np.repeat(rng.uniform(-9, 9, size=(m, 1, 3)), n, axis=1), 2))
+        coords[:, int(rng.integers(n)), int(rng.integers(3))] = np.float32(rng.choice([-312.5, -2500.25, -812.5]))
+        coords[:, int(rng.integers(n)), int(rng.integers(3))] = np.float32(0.0123456)
     s = {"atoms": atoms, "coords": coords, "residues": residues, "res_index": res_index, "templates": templates}
     # optional fields
     opt = {}
@@ -209,6 +215,10 @@ def gen_structure(rng, ctx, want_bonds, max_models=4):
         opt["atom_id"] = np.array(ids, dtype=int)
     if rng.random() < 0.5:
         opt["b_factor"] = np.round(rng.uniform(0, 200, size=n), int(rng.integers(0, 6)))
+        if rng.random() < 0.3:
+            # signed values, one of large magnitude (either sign) next to values that need many decimals
+            opt["b_factor"] = np.round(rng.uniform(-9, 9, size=n), int(rng.integers(3, 8)))
+            opt["b_factor"][int(rng.integers(n))] = float(rng.choice([-312.5, -2500.25, 812.5, -99000.5]))
     if rng.random() < 0.5:
         opt["occupancy"] = np.round(rng.uniform(0, 1, size=n), 2)
     if rng.random() < 0.5:
@@ -268,7 +278,10 @@ def gen_structure(rng, ctx, want_bonds, max_models=4):
             for _ in range(int(rng.integers(0, 5))):
                 r1, r2 = rng.choice(len(residues), size=2, replace=False)
                 r1, r2 = int(min(r1, r2)), int(max(r1, r2))
-                i = residues[r1][4] + int(rng.integers(residues[r1][5]))
+                if rng.random() < 0.25:
+                    r1 = 0
+                    r2 = max(r2, 1)
+                i = residues[r1][4] + (0 if r1 == 0 and rng.random() < 0.7 else int(rng.integers(residues[r1][5])))
                 j = residues[r2][4] + int(rng.integers(residues[r2][5]))
                 if (i, j) in bonds:
                     continue
@@ -345,15 +358,30 @@ def formats(ctx, s):
     return FORMATS[:2]
 
 
-def write_read(fmt, obj, extra, include_bonds):
+def _scribble(obj):
+    """In-place changes of the caller's structure *after* set_structure() (the file holds the values of that moment)."""
+    obj.coord[...] = obj.coord + np.float32(1000.0)
+    obj.res_id[...] = obj.res_id + 7
+    obj.chain_id[...] = "zz"
+    if obj.box is not None:
+        obj.box[...] = obj.box * np.float32(2.0)
+
+
+def write_read(fmt, obj, extra, include_bonds, scribble=False):
     """set_structure -> bytes/text -> parse again.  Returns the freshly parsed file object."""
+    if scribble:
+        obj = obj.copy()
     if fmt == "cif":
         f = pdbx.CIFFile()
         pdbx.set_structure(f, obj, data_block="blk", include_bonds=include_bonds, extra_fields=extra)
+        if scribble:
+            _scribble(obj)
         text = f.serialize()
         return pdbx.CIFFile.deserialize(text)
     f = pdbx.BinaryCIFFile()
     pdbx.set_structure(f, obj, data_block="blk", include_bonds=include_bonds, extra_fields=extra)
+    if scribble:
+        _scribble(obj)
     if fmt == "bcif_compressed":
         f = pdbx.compress(f, float_tolerance=TOL)
     buf = io.BytesIO()
@@ -460,13 +488,27 @@ def case_roundtrip(rng, ctx, want_bonds):
     results = {}
     for fmt in formats(ctx, s):
         ctx.op("write_read_" + fmt)
-        f = write_read(fmt, obj, shared_write_extra, want_bonds)
-        if as_stack:
-            got = pdbx.get_structure(f, extra_fields=shared_extra, include_bonds=want_bonds)
-            compare_structure(ctx, got, s, fmt, "%s stack" % fmt, bonds=want_bonds)
-        else:
-            got = pdbx.get_structure(f, model=1, extra_fields=shared_extra, include_bonds=want_bonds)
-            compare_structure(ctx, got, s, fmt, "%s array" % fmt, model=0, bonds=want_bonds)
+        scribble = bool(rng.random() < 0.3)
+        if scribble:
+            ctx.op("caller_arrays_changed_between_set_structure_and_write")
+        f = write_read(fmt, obj, shared_write_extra, want_bonds, scribble=scribble)
+        # struct_conn rows are matched to atoms by a dense or a dictionary based routine depending on a size
+        # threshold (module constant); both are exercised by moving the threshold from the harness
+        conv = sys.modules["biotite.structure.io.pdbx.convert"]
+        thr0 = conv.FIND_MATCHES_SWITCH_THRESHOLD
+        use_dict = want_bonds and rng.random() < 0.5
+        if use_dict:
+            conv.FIND_MATCHES_SWITCH_THRESHOLD = -1
+            ctx.op("struct_conn_matcher_dict")
+        try:
+            if as_stack:
+                got = pdbx.get_structure(f, extra_fields=shared_extra, include_bonds=want_bonds)
+                compare_structure(ctx, got, s, fmt, "%s stack" % fmt, bonds=want_bonds)
+            else:
+                got = pdbx.get_structure(f, model=1, extra_fields=shared_extra, include_bonds=want_bonds)
+                compare_structure(ctx, got, s, fmt, "%s array" % fmt, model=0, bonds=want_bonds)
+        finally:
+            conv.FIND_MATCHES_SWITCH_THRESHOLD = thr0
         ctx.oracle("arguments_untouched")
         if shared_extra != extra or shared_write_extra != [e for e in extra if e == "my_field"]:
             ctx.fail("arguments_untouched", "the extra_fields list passed by the caller was modified: %s -> %s" % (extra, shared_extra))
